@@ -2,6 +2,7 @@ package props
 
 import (
 	"fmt"
+	"os"
 	"sort"
 	"strings"
 	"sync"
@@ -319,6 +320,43 @@ func c11Run(c *mon.Ctx, idx int) {
 			return
 		}
 	}
+	// the other entry points take the same options: ParseReader and ParseFile
+	// must honour a budget exactly like Parse; and an Option VALUE can be
+	// used for more than one parse
+	if idx%7 == 0 && threshold > 1 {
+		below := threshold - 1
+		for _, n := range []uint64{below, threshold} {
+			wantMax := n < threshold
+			_, e1 := grammar.ParseReader("", strings.NewReader(s), grammar.MaxExpressions(n))
+			if isMaxExprErr(e1) != wantMax || (!wantMax && (e1 == nil) != base.ok) {
+				viol("ParseReader-ignores-budget", "grammar.ParseReader does not honour MaxExpressions like grammar.Parse", map[string]any{"input": fmt.Sprintf("%q", clip(s, 200)), "budget": n, "threshold": threshold, "error": fmt.Sprint(e1)})
+				return
+			}
+			if work := os.Getenv("VERIF_WORK"); work != "" {
+				path := fmt.Sprintf("%s/c11-%d-%d.bexpr", work, os.Getpid(), idx)
+				if os.WriteFile(path, []byte(s), 0o600) == nil {
+					_, e2 := grammar.ParseFile(path, grammar.MaxExpressions(n))
+					os.Remove(path)
+					if isMaxExprErr(e2) != wantMax || (!wantMax && (e2 == nil) != base.ok) {
+						viol("ParseFile-ignores-budget", "grammar.ParseFile does not honour MaxExpressions like grammar.Parse", map[string]any{"input": fmt.Sprintf("%q", clip(s, 200)), "budget": n, "threshold": threshold, "error": fmt.Sprint(e2)})
+						return
+					}
+					c.Count("parsefile_parity_checked")
+				}
+			}
+		}
+		gopt := grammar.MaxExpressions(below)
+		bopt := bexpr.WithMaxExpressions(below)
+		for use := 1; use <= 3; use++ {
+			_, e1, _, _ := parsePublic(s, gopt)
+			_, e2, _, _ := createEval(s, bopt)
+			if !isMaxExprErr(e1) || !isMaxExprErr(e2) {
+				viol("reused-option-value-loses-budget", "an option value used for a second parse no longer enforces its budget", map[string]any{"input": fmt.Sprintf("%q", clip(s, 200)), "budget": below, "use": use, "parse_error": fmt.Sprint(e1), "create_error": fmt.Sprint(e2)})
+				return
+			}
+		}
+		c.Count("entry_point_parity_checked")
+	}
 	c.Count("inputs")
 	if base.ok {
 		c.Count("valid_inputs")
@@ -340,7 +378,7 @@ func init() {
 		NumCases: func(tier string) int { return tierN(tier, 1200, 40000) },
 		Run:      c11Run,
 		Required: func(tier string) []string {
-			return []string{"inputs", "concurrent_budget_rounds", "valid_inputs", "invalid_inputs", "pathological_inputs", "pathological_rejected_within_budget", "rejected_below_threshold", "inputs_with_every_budget", "kind:nested-balanced", "kind:nested-unbalanced", "kind:long-tail", "kind:chain"}
+			return []string{"inputs", "entry_point_parity_checked", "parsefile_parity_checked", "concurrent_budget_rounds", "valid_inputs", "invalid_inputs", "pathological_inputs", "pathological_rejected_within_budget", "rejected_below_threshold", "inputs_with_every_budget", "kind:nested-balanced", "kind:nested-unbalanced", "kind:long-tail", "kind:chain"}
 		},
 	})
 }
